@@ -58,6 +58,9 @@ def warm_quick():
     runs.append(('Traverse', cf, dict(workers=1, timeout=1800)))
   runs.append(('StateDict', 'StateDict_restore.cfg', dict(workers=1, timeout=3000)))
   runs.append(('StateDict', 'StateDict_chunk.cfg', dict(workers=1, timeout=900)))
+  runs.append(('FrozenHeap', 'FrozenHeap_mc.cfg', dict(workers=16, timeout=1800)))
+  runs.append(('FrozenHeap', 'FrozenHeap_small.cfg', dict(workers=1, timeout=1800)))
+  runs.append(('StructNode', 'StructNode_mc.cfg', dict(workers=8, timeout=900)))
   runs.append(('NnxGraph', 'NnxGraph_mc.cfg', dict(workers=16, timeout=3000)))
   runs.append(('NnxGraph', 'NnxGraph_small.cfg', dict(workers=1, timeout=3000)))
   return runs
